@@ -94,3 +94,28 @@ fn after_try_recv<T>(result: &Result<T, TryRecvError>) {
         Err(TryRecvError::Lagged(_)) => RecvKind::Lagged,
     });
 }
+
+/// The crate's private `ReusableBoxFuture` (the hand-written `unsafe` in-place
+/// replacement of a boxed future) behind a public wrapper, so that it can be
+/// driven directly with futures of different layouts and with destructors
+/// that panic.
+pub struct RBox<'a, T>(crate::reusable_box::ReusableBoxFuture<'a, T>);
+
+impl<'a, T> RBox<'a, T> {
+    /// `ReusableBoxFuture::new`
+    pub fn new<F: std::future::Future<Output = T> + 'a>(future: F) -> Self {
+        Self(crate::reusable_box::ReusableBoxFuture::new(future))
+    }
+    /// `ReusableBoxFuture::set`
+    pub fn set<F: std::future::Future<Output = T> + 'a>(&mut self, future: F) {
+        self.0.set(future)
+    }
+    /// `ReusableBoxFuture::try_set`
+    pub fn try_set<F: std::future::Future<Output = T> + 'a>(&mut self, future: F) -> Result<(), F> {
+        self.0.try_set(future)
+    }
+    /// `ReusableBoxFuture::poll`
+    pub fn poll(&mut self, cx: &mut std::task::Context<'_>) -> std::task::Poll<T> {
+        self.0.poll(cx)
+    }
+}
